@@ -75,6 +75,10 @@ def coq_pairs(name, terms, shard=60, timeout=900):
 # ---------------------------------------------------------------------------
 # the engine
 # ---------------------------------------------------------------------------
+ROOTS = ["vmap", "axis1", "scan", "switch", "or_else", "mask", "dimap", "repeat", "map", "contramap", "iterate",
+         "iterate_final", "accumulate", "reduce", "masked_iterate_final", "masked_iterate", "static"]
+
+
 def engine(ctx):
     """returns dict(cases, outs, shipped(list of step-lists), mism {case_idx: step_idx}, errors, cached)"""
     key = tree_hash(ctx.seed, ctx.tier)
@@ -89,7 +93,7 @@ def engine(ctx):
         except Exception:
             pass
     t0 = time.time()
-    n = ctx.n(80, 400)
+    n = ctx.n(64, 400)
     base = ctx.seed * 100000
     cases = [gfi_run.make_case(base + s, depth=(2 if s % 3 else 3)) for s in range(n)]
     # malformed stream (C22): static bodies that trace one address twice
@@ -100,6 +104,10 @@ def engine(ctx):
         k += 1
         if c["prog"][0] == "static" and len(c["prog"][1]) >= 2 and c["prog"][1][0][0] == c["prog"][1][-1][0]:
             cases.append(c)
+    # targeted stream: every combinator as the root of some programs (see gfi_run.make_case)
+    for ri, root in enumerate(ROOTS):
+        for j in range(ctx.n(2, 8)):
+            cases.append(gfi_run.make_case(base + 60000 + 100 * ri + j, depth=2, flavour="root:" + root))
     outs = gfi_run.run_cases(cases, procs=14)
     t_impl = time.time() - t0
     kept_idx = [i for i, o in enumerate(outs) if "skip" not in o]
@@ -539,7 +547,8 @@ def oracle_C22(case, out):
                     bad.append(("the trace's choice map does not hold exactly the visited addresses",
                                 {"only_visited": [list(p) for p in visited - present][:3], "only_in_choices": [list(p) for p in present - visited][:3]}))
             except Missing as e:
-                bad.append(("a visited address has no value in the trace's choice map", {"addr": [list(c) for c in e.args[0]]}))
+                if case.get("univ_full", True):      # (a truncated observation cannot tell)
+                    bad.append(("a visited address has no value in the trace's choice map", {"addr": [list(c) for c in e.args[0]]}))
             except (Unsupported, TypeError, IndexError):
                 pass
         if case.get("zero_len") and s["kind"] in ("assess_partial", "assess_full"):
@@ -780,7 +789,7 @@ def run_property(ctx, pid, oracles=None, extra_cov=None):
                     if nor > 3:
                         continue
                 ctx.fail("oracle", f"{what}: {json.dumps(detail, default=str)[:400]} (program {json.dumps(cases[i]['prog'])[:200]})",
-                         case={"seed": cases[i]["seed"], "depth": (2 if (cases[i]["flavour"] == "dup" or (cases[i]['seed'] % 100000) % 3) else 3),
+                         case={"seed": cases[i]["seed"], "depth": (2 if (cases[i]["flavour"] != "basic" or (cases[i]['seed'] % 100000) % 3) else 3),
                                "flavour": cases[i]["flavour"], "oracle": name, "what": what},
                          signature=sig)
     ctx.cov["evaluations"] = nrel
